@@ -1,4 +1,5 @@
 import Glom.Spec.C15
+import Glom.Lemmas.C13
 /-
   Helper lemmas for C15: heap frames, stability of every read of an input
   object under allocation / mutation of fresh cells, the loop invariants.
@@ -61,18 +62,18 @@ theorem strChars_inb (n : Nat) (s : String) : ∀ x ∈ strChars s, Val.inb n x 
   obtain ⟨c, _, rfl⟩ := hx
   rfl
 
-theorem rawIter1_ext {h0 h : Heap} (c : Ctx h0 h) {v : Val} (hv : Val.inb h0.length v = true) :
-    rawIter1 h v = rawIter1 h0 v := by
+theorem rawIterBase_ext {h0 h : Heap} (c : Ctx h0 h) {v : Val} (hv : Val.inb h0.length v = true) :
+    rawIterBase h v = rawIterBase h0 v := by
   cases v with
-  | ref a => simp only [rawIter1, c.get (inb_ref.mp hv)]
+  | ref a => simp only [rawIterBase, c.get (inb_ref.mp hv)]
   | _ => rfl
 
-theorem rawIter1_inb {h0 : Heap} (hc : closedHeap h0 = true) {v : Val} {xs : List Val}
-    (hr : rawIter1 h0 v = some xs) : ∀ x ∈ xs, Val.inb h0.length x = true := by
+theorem rawIterBase_inb {h0 : Heap} (hc : closedHeap h0 = true) {v : Val} {xs : List Val}
+    (hr : rawIterBase h0 v = some xs) : ∀ x ∈ xs, Val.inb h0.length x = true := by
   cases v with
-  | str s => simp only [rawIter1, Option.some.injEq] at hr; subst hr; exact strChars_inb _ s
+  | str s => simp only [rawIterBase, Option.some.injEq] at hr; subst hr; exact strChars_inb _ s
   | ref a =>
-    simp only [rawIter1] at hr
+    simp only [rawIterBase] at hr
     split at hr
     all_goals (try (simp at hr; done))
     all_goals
@@ -86,7 +87,61 @@ theorem rawIter1_inb {h0 : Heap} (hc : closedHeap h0 = true) {v : Val} {xs : Lis
       try exact hx
     · obtain ⟨p, hp, rfl⟩ := List.mem_map.mp hx
       exact ⟨p.1, p.2, hp, Or.inl rfl⟩
-  | _ => simp [rawIter1] at hr
+  | _ => simp [rawIterBase] at hr
+
+theorem attrOf_mem {as : List (String × Val)} {n : String} {w : Val} (ha : attrOf as n = some w) :
+    w ∈ as.map (·.2) := by
+  unfold attrOf at ha
+  cases hf : as.find? (·.1 == n) with
+  | none => simp [hf] at ha
+  | some p =>
+    simp [hf] at ha
+    exact List.mem_map.mpr ⟨p, List.mem_of_find?_eq_some hf, ha⟩
+
+theorem attr_inb {h0 : Heap} (hc : closedHeap h0 = true) {a : Nat} {cl : String} {as : List (String × Val)}
+    (ho : h0[a]? = some (.inst cl as)) {n : String} {w : Val} (ha : attrOf as n = some w) :
+    Val.inb h0.length w = true :=
+  (closed_get hc ho).1 w (by simpa [cellVals] using attrOf_mem ha)
+
+theorem rawIter1_ext {h0 h : Heap} (c : Ctx h0 h) {v : Val} (hv : Val.inb h0.length v = true) :
+    rawIter1 h v = rawIter1 h0 v := by
+  cases v with
+  | ref a =>
+    have ha := inb_ref.mp hv
+    simp only [rawIter1, c.get ha]
+    cases ho : h0[a]? with
+    | none => simp only [rawIterBase, c.get ha, ho]
+    | some o =>
+      cases o with
+      | inst cl as =>
+        simp only
+        split
+        · cases hat : attrOf as "names" with
+          | none => rfl
+          | some w => exact rawIterBase_ext c (attr_inb c.closed ho hat)
+        · rfl
+      | _ => exact rawIterBase_ext c hv
+  | _ => exact rawIterBase_ext c hv
+
+theorem rawIter1_inb {h0 : Heap} (hc : closedHeap h0 = true) {v : Val} {xs : List Val}
+    (hr : rawIter1 h0 v = some xs) : ∀ x ∈ xs, Val.inb h0.length x = true := by
+  cases v with
+  | ref a =>
+    simp only [rawIter1] at hr
+    cases ho : h0[a]? with
+    | none => rw [ho] at hr; exact rawIterBase_inb hc hr
+    | some o =>
+      rw [ho] at hr
+      cases o with
+      | inst cl as =>
+        simp only at hr
+        split at hr
+        · cases hat : attrOf as "names" with
+          | none => simp [hat] at hr
+          | some w => simp only [hat] at hr; exact rawIterBase_inb hc hr
+        · cases hr
+      | _ => exact rawIterBase_inb hc hr
+  | _ => simp only [rawIter1] at hr; exact rawIterBase_inb hc hr
 
 theorem joinWith_congr {f g : Val → Option (List Val)} {xs : List Val} (hfg : ∀ x ∈ xs, f x = g x) :
     joinWith f xs = joinWith g xs := by
@@ -127,7 +182,7 @@ theorem rawIter_ext {h0 h : Heap} (c : Ctx h0 h) {v : Val} (hv : Val.inb h0.leng
     · rename_i cls xs heq
       have := (closed_get c.closed heq).2
       simp only [objNotChain, bne_iff_ne, ne_eq] at this
-      simp [this, rawIter1, heq]
+      simp [this, rawIter1, rawIterBase, heq]
     · exact rawIter1_ext c hv
   | _ => rfl
 
@@ -201,6 +256,8 @@ theorem pyOp_ext {h0 h : Heap} (c : Ctx h0 h) (op : Op) (sv : SV) {v : Val}
     cases v with
     | ref a => simp only [pyOp, pyFirstWins, c.get (inb_ref.mp hv)]
     | _ => rfl
+  | append => rfl
+  | cons => rfl
 
 /-! ### what the operators return -/
 
@@ -225,6 +282,11 @@ theorem pyOp_imm {op : Op} {h : Heap} {x v : Val} {r : OpRes} (hr : pyOp op h (.
   | firstWins =>
     simp only [pyOp, pyFirstWins] at hr
     repeat (first | (split at hr) | (injection hr with hr; subst hr; exact ⟨_, rfl⟩) | contradiction)
+  | append => simp [pyOp] at hr
+  | cons => simp [pyOp] at hr
+
+theorem numAdd_not_ref (x y : Num) (a : Nat) : numAdd x y ≠ .ref a := by
+  cases x <;> cases y <;> simp [numAdd]
 
 theorem pyOp_ok {op : Op} {h : Heap} {sv : SV} {v : Val} {r : OpRes} (hs : sv.ok)
     (hr : pyOp op h sv v = .ok r) : (foldRet r).ok ∧ (mergeRet sv r).ok := by
@@ -234,7 +296,7 @@ theorem pyOp_ok {op : Op} {h : Heap} {sv : SV} {v : Val} {r : OpRes} (hs : sv.ok
     repeat (first
       | (split at hr)
       | (injection hr with hr; subst hr; refine ⟨?_, ?_⟩ <;>
-          first | exact hs | (intro a; simp) | (simp [foldRet, mergeRet, SV.ok, objNotChain]))
+          first | exact hs | (intro a; exact numAdd_not_ref _ _ a) | (intro a; simp) | (simp [foldRet, mergeRet, SV.ok, objNotChain]))
       | contradiction)
   | count =>
     simp only [pyOp] at hr
@@ -257,6 +319,38 @@ theorem pyOp_ok {op : Op} {h : Heap} {sv : SV} {v : Val} {r : OpRes} (hs : sv.ok
       | (injection hr with hr; subst hr; refine ⟨?_, ?_⟩ <;>
           first | exact hs | (intro a; simp) | (simp [foldRet, mergeRet, SV.ok, objNotChain]))
       | contradiction)
+  | append =>
+    simp only [pyOp] at hr
+    repeat (first
+      | (split at hr)
+      | (injection hr with hr; subst hr; refine ⟨?_, ?_⟩ <;>
+          first | exact hs | (intro a; simp) | (simp [foldRet, mergeRet, SV.ok, objNotChain]))
+      | contradiction)
+  | cons =>
+    simp only [pyOp] at hr
+    repeat (first
+      | (split at hr)
+      | (injection hr with hr; subst hr; refine ⟨?_, ?_⟩ <;>
+          first | exact hs | (intro a; simp) | (simp [foldRet, mergeRet, SV.ok, objNotChain]))
+      | contradiction)
+
+/-- **the three laws an operator must meet** for the loops to refine `functools.reduce`, to leave
+    the inputs alone and to return fresh objects (relative to the input heap `h0`):
+    `ext`  what it computes depends on the accumulator's VALUE and on input objects only,
+           and those it only reads;
+    `imm`  an immediate accumulator cannot be mutated in place;
+    `ok`   what it returns is an immediate or a container of its own (never a reference to a
+           pre-existing object, never a chain object). -/
+structure OpLaw (h0 : Heap) (f : OpFn) : Prop where
+  ext : ∀ {h : Heap}, Ctx h0 h → ∀ (sv : SV) {v : Val}, Val.inb h0.length v = true → f h sv v = f h0 sv v
+  imm : ∀ {h : Heap} {x v : Val} {r : OpRes}, f h (.imm x) v = .ok r → ∃ sv, r = .value sv
+  ok : ∀ {h : Heap} {sv : SV} {v : Val} {r : OpRes}, sv.ok → f h sv v = .ok r →
+    (foldRet r).ok ∧ (mergeRet sv r).ok
+
+/-- every operator of the catalogue (`+=`, `+`, Count's lambda, `dict.update` / `Acc.update`,
+    `first_wins`, `append`, `cons`) meets the laws -/
+theorem pyOp_law (h0 : Heap) (op : Op) : OpLaw h0 (pyOp op) :=
+  ⟨fun c sv _ hv => pyOp_ext c op sv hv, fun hr => pyOp_imm hr, fun hs hr => pyOp_ok hs hr⟩
 
 /-! ### the accumulator object and its value -/
 
@@ -308,16 +402,16 @@ theorem get_lt {h : Heap} {a : Nat} {o : Obj} (ho : h[a]? = some o) : a < h.leng
 
 /-- one step of `ret = op(ret, v)` on the heap is one step of the pure reduce -/
 theorem opStep_fold {h0 h : Heap} (c : Ctx h0 h) {b : Nat} (hb : h0.length ≤ b) (hbl : b ≤ h.length)
-    (op : Op) {acc v : Val} {sv : SV} (hv : Val.inb h0.length v = true) (hh : Holds h b acc sv) :
-    match foldStep op h0 sv v with
-    | .error e => opStep op h acc v = .error e
-    | .ok sv' => ∃ acc' h', opStep op h acc v = .ok (acc', h') ∧ Frame b h h' ∧ Holds h' b acc' sv' := by
+    {f : OpFn} (L : OpLaw h0 f) {acc v : Val} {sv : SV} (hv : Val.inb h0.length v = true) (hh : Holds h b acc sv) :
+    match foldStep f h0 sv v with
+    | .error e => opStep f h acc v = .error e
+    | .ok sv' => ∃ acc' h', opStep f h acc v = .ok (acc', h') ∧ Frame b h h' ∧ Holds h' b acc' sv' := by
   unfold foldStep opStep
-  simp only [hh.load, pyOp_ext c op sv hv]
-  cases hp : pyOp op h0 sv v with
+  simp only [hh.load, L.ext c sv hv]
+  cases hp : f h0 sv v with
   | error e => rfl
   | ok r =>
-    have hok := (pyOp_ok hh.ok hp).1
+    have hok := (L.ok hh.ok hp).1
     simp only [Except.map]
     cases r with
     | value r' =>
@@ -325,14 +419,14 @@ theorem opStep_fold {h0 h : Heap} (c : Ctx h0 h) {b : Nat} (hb : h0.length ≤ b
       exact ⟨_, _, rfl, this.1, this.2⟩
     | inplaceSelf o =>
       cases sv with
-      | imm x => obtain ⟨_, hx⟩ := pyOp_imm hp; cases hx
+      | imm x => obtain ⟨_, hx⟩ := L.imm hp; cases hx
       | cell o0 =>
         obtain ⟨a, rfl, h2, h3, _⟩ := hh
         refine ⟨.ref a, h.set a o, rfl, Frame.set hbl h2 o, a, rfl, h2, ?_, hok⟩
         simp [List.getElem?_set, get_lt h3]
     | inplaceNone o =>
       cases sv with
-      | imm x => obtain ⟨_, hx⟩ := pyOp_imm hp; cases hx
+      | imm x => obtain ⟨_, hx⟩ := L.imm hp; cases hx
       | cell o0 =>
         obtain ⟨a, rfl, h2, h3, _⟩ := hh
         refine ⟨.none, h.set a o, rfl, Frame.set hbl h2 o, rfl, ?_⟩
@@ -340,16 +434,16 @@ theorem opStep_fold {h0 h : Heap} (c : Ctx h0 h) {b : Nat} (hb : h0.length ≤ b
 
 /-- one step of Merge's `op(ret, v)` (result dropped) is one step of the pure merge -/
 theorem opStep_merge {h0 h : Heap} (c : Ctx h0 h) {b : Nat} (hb : h0.length ≤ b) (hbl : b ≤ h.length)
-    (op : Op) {ret v : Val} {sv : SV} (hv : Val.inb h0.length v = true) (hh : Holds h b ret sv) :
-    match mergeStep op h0 sv v with
-    | .error e => opStep op h ret v = .error e
-    | .ok sv' => ∃ x h', opStep op h ret v = .ok (x, h') ∧ Frame b h h' ∧ Holds h' b ret sv' := by
+    {f : OpFn} (L : OpLaw h0 f) {ret v : Val} {sv : SV} (hv : Val.inb h0.length v = true) (hh : Holds h b ret sv) :
+    match mergeStep f h0 sv v with
+    | .error e => opStep f h ret v = .error e
+    | .ok sv' => ∃ x h', opStep f h ret v = .ok (x, h') ∧ Frame b h h' ∧ Holds h' b ret sv' := by
   unfold mergeStep opStep
-  simp only [hh.load, pyOp_ext c op sv hv]
-  cases hp : pyOp op h0 sv v with
+  simp only [hh.load, L.ext c sv hv]
+  cases hp : f h0 sv v with
   | error e => rfl
   | ok r =>
-    have hok := (pyOp_ok hh.ok hp).2
+    have hok := (L.ok hh.ok hp).2
     simp only [Except.map]
     cases r with
     | value r' =>
@@ -358,35 +452,36 @@ theorem opStep_merge {h0 h : Heap} (c : Ctx h0 h) {b : Nat} (hb : h0.length ≤ 
       | cell o => exact ⟨_, _, rfl, Frame.append hbl o, hh.append o⟩
     | inplaceSelf o =>
       cases sv with
-      | imm x => obtain ⟨_, hx⟩ := pyOp_imm hp; cases hx
+      | imm x => obtain ⟨_, hx⟩ := L.imm hp; cases hx
       | cell o0 =>
         obtain ⟨a, rfl, h2, h3, _⟩ := hh
         refine ⟨.ref a, h.set a o, rfl, Frame.set hbl h2 o, a, rfl, h2, ?_, hok⟩
         simp [List.getElem?_set, get_lt h3]
     | inplaceNone o =>
       cases sv with
-      | imm x => obtain ⟨_, hx⟩ := pyOp_imm hp; cases hx
+      | imm x => obtain ⟨_, hx⟩ := L.imm hp; cases hx
       | cell o0 =>
         obtain ⟨a, rfl, h2, h3, _⟩ := hh
         refine ⟨.none, h.set a o, rfl, Frame.set hbl h2 o, a, rfl, h2, ?_, hok⟩
         simp [List.getElem?_set, get_lt h3]
 
-/-- **Fold._fold's loop refines functools.reduce** -/
-theorem foldLoop_spec {h0 : Heap} (hc : closedHeap h0 = true) {b : Nat} (hb : h0.length ≤ b) (op : Op) :
+/-- **Fold._fold's loop refines functools.reduce** — for every lawful operator -/
+theorem foldLoop_spec {h0 : Heap} (hc : closedHeap h0 = true) {b : Nat} (hb : h0.length ≤ b)
+    {f : OpFn} (L : OpLaw h0 f) :
     ∀ (items : List Val), (∀ x ∈ items, Val.inb h0.length x = true) →
     ∀ (acc : Val) (h : Heap) (sv : SV), Frame h0.length h0 h → b ≤ h.length → Holds h b acc sv →
-      Frame b h (foldLoop op items acc h).2 ∧
-      match refReduce (foldStep op h0) items sv with
-      | .error e => (foldLoop op items acc h).1 = .error e
-      | .ok sv' => ∃ r, (foldLoop op items acc h).1 = .ok r ∧ Holds (foldLoop op items acc h).2 b r sv' := by
+      Frame b h (foldLoop f items acc h).2 ∧
+      match refReduce (foldStep f h0) items sv with
+      | .error e => (foldLoop f items acc h).1 = .error e
+      | .ok sv' => ∃ r, (foldLoop f items acc h).1 = .ok r ∧ Holds (foldLoop f items acc h).2 b r sv' := by
   intro items
   induction items with
   | nil => intro _ acc h sv _ hbl hh; exact ⟨Frame.rfl' hbl, acc, rfl, hh⟩
   | cons v vs ih =>
     intro hi acc h sv hf hbl hh
-    have hstep := opStep_fold ⟨hc, hf⟩ hb hbl op (hi v List.mem_cons_self) hh
+    have hstep := opStep_fold ⟨hc, hf⟩ hb hbl L (hi v List.mem_cons_self) hh
     simp only [refReduce, foldLoop]
-    cases hfs : foldStep op h0 sv v with
+    cases hfs : foldStep f h0 sv v with
     | error e =>
       rw [hfs] at hstep
       simp only [hstep]
@@ -399,23 +494,23 @@ theorem foldLoop_spec {h0 : Heap} (hc : closedHeap h0 = true) {b : Nat} (hb : h0
         (hf.trans hb hfr) hfr.1 hh'
       exact ⟨hfr.trans (Nat.le_refl _) this.1, this.2⟩
 
-/-- **Merge._fold's loop refines successive updates** -/
-theorem mergeLoop_spec {h0 : Heap} (hc : closedHeap h0 = true) {b : Nat} (hb : h0.length ≤ b) (op : Op)
-    (ret : Val) :
+/-- **Merge._fold's loop refines successive updates** — for every lawful operator -/
+theorem mergeLoop_spec {h0 : Heap} (hc : closedHeap h0 = true) {b : Nat} (hb : h0.length ≤ b)
+    {f : OpFn} (L : OpLaw h0 f) (ret : Val) :
     ∀ (items : List Val), (∀ x ∈ items, Val.inb h0.length x = true) →
     ∀ (h : Heap) (sv : SV), Frame h0.length h0 h → b ≤ h.length → Holds h b ret sv →
-      Frame b h (mergeLoop op ret items h).2 ∧
-      match refReduce (mergeStep op h0) items sv with
-      | .error e => (mergeLoop op ret items h).1 = .error e
-      | .ok sv' => (mergeLoop op ret items h).1 = .ok ret ∧ Holds (mergeLoop op ret items h).2 b ret sv' := by
+      Frame b h (mergeLoop f ret items h).2 ∧
+      match refReduce (mergeStep f h0) items sv with
+      | .error e => (mergeLoop f ret items h).1 = .error e
+      | .ok sv' => (mergeLoop f ret items h).1 = .ok ret ∧ Holds (mergeLoop f ret items h).2 b ret sv' := by
   intro items
   induction items with
   | nil => intro _ h sv _ hbl hh; exact ⟨Frame.rfl' hbl, rfl, hh⟩
   | cons v vs ih =>
     intro hi h sv hf hbl hh
-    have hstep := opStep_merge ⟨hc, hf⟩ hb hbl op (hi v List.mem_cons_self) hh
+    have hstep := opStep_merge ⟨hc, hf⟩ hb hbl L (hi v List.mem_cons_self) hh
     simp only [refReduce, mergeLoop]
-    cases hfs : mergeStep op h0 sv v with
+    cases hfs : mergeStep f h0 sv v with
     | error e =>
       rw [hfs] at hstep
       simp only [hstep]
@@ -537,29 +632,107 @@ theorem clsName_ext {h0 h : Heap} (c : Ctx h0 h) {v : Val} (hv : Val.inb h0.leng
   | ref a => simp only [Val.clsName, c.get (inb_ref.mp hv)]
   | _ => rfl
 
-theorem hasIter_ext {h0 h : Heap} (c : Ctx h0 h) {v : Val} (hv : Val.inb h0.length v = true) :
-    hasIter h v = hasIter h0 v := by
+theorem mem_drop_one {α} {x : α} {l : List α} (h : x ∈ l.drop 1) : x ∈ l := List.mem_of_mem_drop h
+
+theorem itemsAttrIter_ext {h0 h : Heap} (c : Ctx h0 h) {v : Val} (hv : Val.inb h0.length v = true) :
+    itemsAttrIter h v = itemsAttrIter h0 v := by
   cases v with
-  | ref a => simp only [hasIter, c.get (inb_ref.mp hv)]
+  | ref a =>
+    have ha := inb_ref.mp hv
+    simp only [itemsAttrIter, c.get ha]
+    cases ho : h0[a]? with
+    | none => rfl
+    | some o =>
+      cases o with
+      | inst cl as =>
+        simp only
+        cases hat : attrOf as "items" with
+        | none => rfl
+        | some w => exact rawIterBase_ext c (attr_inb c.closed ho hat)
+      | _ => rfl
   | _ => rfl
+
+theorem itemsAttrIter_inb {h0 : Heap} (hc : closedHeap h0 = true) {v : Val} {items : List Val}
+    (hr : itemsAttrIter h0 v = some items) : ∀ x ∈ items, Val.inb h0.length x = true := by
+  cases v with
+  | ref a =>
+    simp only [itemsAttrIter] at hr
+    cases ho : h0[a]? with
+    | none => simp [ho] at hr
+    | some o =>
+      cases o with
+      | inst cl as =>
+        simp only [ho] at hr
+        cases hat : attrOf as "items" with
+        | none => simp [hat] at hr
+        | some w => simp only [hat] at hr; exact rawIterBase_inb hc hr
+      | _ => simp [ho] at hr
+  | _ => simp [itemsAttrIter] at hr
+
+/-- what a handler of the catalogue yields is stable -/
+theorem runHandler_ext {h0 h : Heap} (c : Ctx h0 h) (hn : String) {v : Val} (hv : Val.inb h0.length v = true) :
+    runHandler hn h v = runHandler hn h0 v := by
+  unfold runHandler
+  rw [rawIter_ext2 c hv, itemsAttrIter_ext c hv]
+
+/-- … and consists of input values -/
+theorem runHandler_inb {h0 : Heap} (hc : closedHeap h0 = true) (hn : String) {v : Val}
+    (hv : Val.inb h0.length v = true) {items : List Val} (hr : runHandler hn h0 v = some items) :
+    ∀ x ∈ items, Val.inb h0.length x = true := by
+  have c0 := Ctx.base hc
+  unfold runHandler at hr
+  split at hr
+  · exact rawIter_inb c0 hv hr
+  · split at hr
+    · cases hri : rawIter h0 v with
+      | none => simp [hri] at hr
+      | some ys =>
+        simp only [hri, Option.map_some, Option.some.injEq] at hr
+        subst hr
+        intro x hx
+        exact rawIter_inb c0 hv hri x (List.mem_reverse.mp hx)
+    · split at hr
+      · cases hri : rawIter h0 v with
+        | none => simp [hri] at hr
+        | some ys =>
+          simp only [hri, Option.map_some, Option.some.injEq] at hr
+          subst hr
+          intro x hx
+          exact rawIter_inb c0 hv hri x (mem_drop_one hx)
+      · split at hr
+        · exact rawIter_inb c0 hv hr
+        · split at hr
+          · exact itemsAttrIter_inb hc hr
+          · cases hr
+
+theorem applyHandler_ext {h0 h : Heap} (c : Ctx h0 h) (env : Env) (ans : Except IterErr String) {v : Val}
+    (hv : Val.inb h0.length v = true) : applyHandler env ans h v = applyHandler env ans h0 v := by
+  cases ans with
+  | error e => rfl
+  | ok hn => simp only [applyHandler, runHandler_ext c hn hv]
+
+theorem applyHandler_inb {h0 : Heap} (hc : closedHeap h0 = true) (env : Env) (ans : Except IterErr String)
+    {v : Val} (hv : Val.inb h0.length v = true) {items : List Val}
+    (ht : applyHandler env ans h0 v = .ok items) : ∀ x ∈ items, Val.inb h0.length x = true := by
+  cases ans with
+  | error e => cases ht
+  | ok hn =>
+    simp only [applyHandler] at ht
+    cases hr : runHandler hn h0 v with
+    | none => simp [hr] at ht
+    | some its =>
+      simp only [hr] at ht
+      injection ht with ht; subst ht
+      exact runHandler_inb hc hn hv hr
 
 theorem targetIter_ext {h0 h : Heap} (c : Ctx h0 h) (env : Env) {v : Val} (hv : Val.inb h0.length v = true) :
     targetIter env h v = targetIter env h0 v := by
-  simp only [targetIter, iterHandler, clsName_ext c hv, hasIter_ext c hv, rawIter_ext2 c hv]
+  simp only [targetIter, clsName_ext c hv, applyHandler_ext c env _ hv]
 
 theorem targetIter_inb {h0 : Heap} (hc : closedHeap h0 = true) (env : Env) {v : Val}
     (hv : Val.inb h0.length v = true) {items : List Val} (ht : targetIter env h0 v = .ok items) :
-    ∀ x ∈ items, Val.inb h0.length x = true := by
-  unfold targetIter at ht
-  split at ht
-  · split at ht
-    · split at ht
-      · rename_i its hr
-        injection ht with ht; subst ht
-        exact rawIter_inb (Ctx.base hc) hv hr
-      · cases ht
-    · cases ht
-  · cases ht
+    ∀ x ∈ items, Val.inb h0.length x = true :=
+  applyHandler_inb hc env _ hv ht
 
 theorem refItems_inb {h0 : Heap} (hc : closedHeap h0 = true) (env : Env) {sub : List Val} {target : Val}
     (hs : ∀ k ∈ sub, Val.inb h0.length k = true) (ht : Val.inb h0.length target = true)
@@ -580,18 +753,58 @@ theorem refItems_inb {h0 : Heap} (hc : closedHeap h0 = true) (env : Env) {sub : 
 
 /-! ### one evaluation -/
 
-theorem callInit_spec (h0 : Heap) (i : Init) (hi : i.allocates = true) (h : Heap) :
-    ∃ sv, initSV h0 i = some sv ∧ Frame h.length h (callInit i h).2 ∧
-      Holds (callInit i h).2 h.length (callInit i h).1 sv := by
+/-- **the law an `init` factory must meet**: on every later heap it leaves what exists alone and
+    returns an immutable immediate, or a NEW object, holding the value `sv0` -/
+def InitLaw (h0 : Heap) (ini : InitFn) (sv0 : SV) : Prop :=
+  ∀ h, Ctx h0 h → Frame h.length h (ini h).2 ∧ Holds (ini h).2 h.length (ini h).1 sv0
+
+/-- the hypotheses on an `init` of the catalogue: it allocates; a copying factory copies a list /
+    tuple / dict (or an immediate) of the input heap -/
+structure InitOK (h0 : Heap) (i : Init) : Prop where
+  allocates : i.allocates = true
+  wf : i.wf h0 = true
+  inb : ∀ v ∈ i.vals, Val.inb h0.length v = true
+
+theorem copyable_notChain {o : Obj} (ho : copyable o = true) : objNotChain o = true := by
+  cases o with
+  | tuple c xs =>
+    simp only [copyable, beq_iff_eq] at ho
+    subst ho; simp [objNotChain]
+  | _ => rfl
+
+/-- every factory of the catalogue (`int`, `float`, `str`, `list`, `tuple`, `dict`, `OrderedDict`,
+    `Acc`, a copying factory) meets the law -/
+theorem callInit_law {h0 : Heap} {i : Init} (hi : InitOK h0 i) :
+    ∃ sv, initSV h0 i = some sv ∧ InitLaw h0 (callInit i) sv := by
   cases i with
-  | shared v => cases hi
-  | int => exact ⟨_, rfl, Frame.rfl' (Nat.le_refl _), rfl, by intro a; simp⟩
-  | str => exact ⟨_, rfl, Frame.rfl' (Nat.le_refl _), rfl, by intro a; simp⟩
-  | list => exact ⟨_, rfl, materialise_holds (Nat.le_refl _) (sv := .cell (.list "list" [])) rfl⟩
-  | tuple => exact ⟨_, rfl, materialise_holds (Nat.le_refl _) (sv := .cell (.tuple "tuple" [])) (by simp [SV.ok, objNotChain])⟩
-  | dict => exact ⟨_, rfl, materialise_holds (Nat.le_refl _) (sv := .cell (.dict "dict" [])) rfl⟩
-  | odict => exact ⟨_, rfl, materialise_holds (Nat.le_refl _) (sv := .cell (.dict "OrderedDict" [])) rfl⟩
-  | acc => exact ⟨_, rfl, materialise_holds (Nat.le_refl _) (sv := .cell (.list "Acc" [])) rfl⟩
+  | shared v => exact absurd hi.allocates (by simp [Init.allocates])
+  | int => exact ⟨_, rfl, fun h _ => ⟨Frame.rfl' (Nat.le_refl _), rfl, by intro a; simp⟩⟩
+  | float => exact ⟨_, rfl, fun h _ => ⟨Frame.rfl' (Nat.le_refl _), rfl, by intro a; simp⟩⟩
+  | str => exact ⟨_, rfl, fun h _ => ⟨Frame.rfl' (Nat.le_refl _), rfl, by intro a; simp⟩⟩
+  | list => exact ⟨_, rfl, fun h _ => materialise_holds (Nat.le_refl _) (sv := .cell (.list "list" [])) rfl⟩
+  | tuple =>
+    exact ⟨_, rfl, fun h _ => materialise_holds (Nat.le_refl _) (sv := .cell (.tuple "tuple" []))
+      (by simp [SV.ok, objNotChain])⟩
+  | dict => exact ⟨_, rfl, fun h _ => materialise_holds (Nat.le_refl _) (sv := .cell (.dict "dict" [])) rfl⟩
+  | odict =>
+    exact ⟨_, rfl, fun h _ => materialise_holds (Nat.le_refl _) (sv := .cell (.dict "OrderedDict" [])) rfl⟩
+  | acc => exact ⟨_, rfl, fun h _ => materialise_holds (Nat.le_refl _) (sv := .cell (.list "Acc" [])) rfl⟩
+  | copyOf v =>
+    cases v with
+    | ref a =>
+      have hw := hi.wf
+      simp only [Init.wf] at hw
+      cases ho : h0[a]? with
+      | none => simp [ho] at hw
+      | some o =>
+        simp only [ho] at hw
+        refine ⟨.cell o, by simp [initSV, C15.load, ho], ?_⟩
+        intro h c
+        have hget : h[a]? = some o := by rw [c.get (get_lt ho)]; exact ho
+        simp only [callInit, hget, hw, if_true]
+        exact materialise_holds (Nat.le_refl _) (sv := .cell o) (copyable_notChain hw)
+    | none | bool _ | int _ | str _ | float _ | sent _ | ty _ | fn _ =>
+      exact ⟨_, rfl, fun h _ => ⟨Frame.rfl' (Nat.le_refl _), rfl, by intro a; simp⟩⟩
 
 /-- a chain result holds input values only -/
 def newOK (n0 : Nat) : Obj → Prop
@@ -620,16 +833,17 @@ theorem resRel_of_holds {n0 b : Nat} {h' : Heap} {r : Val} {sv : SV} (hh : Holds
   | imm v => obtain ⟨rfl, hn⟩ := hh; exact ⟨rfl, hn⟩
   | cell o => obtain ⟨a, rfl, h2, h3, h4⟩ := hh; exact ⟨a, rfl, h2, h3, newOK_of_notChain h4⟩
 
-theorem foldKind_spec {h0 h : Heap} (c : Ctx h0 h) (init : Init) (op : Op) (hs : init.allocates = true)
-    {items : List Val} (hi : ∀ x ∈ items, Val.inb h0.length x = true) :
-    let out := foldLoop op items (callInit init h).1 (callInit init h).2
-    Frame h.length h out.2 ∧
-      ResRel h0.length h.length out (withInit h0 init (refReduce (foldStep op h0) items)) := by
-  obtain ⟨sv, hsv, hf, hh⟩ := callInit_spec h0 init hs h
-  have hl := foldLoop_spec c.closed c.frame.1 op items hi _ _ sv (c.frame.trans c.frame.1 hf) hf.1 hh
+/-- **Fold._fold = functools.reduce** for EVERY lawful factory and operator: nothing that existed
+    changes, and the outcome realises the pure reduce over the input heap -/
+theorem foldWith_spec {h0 h : Heap} (c : Ctx h0 h) {ini : InitFn} {sv0 : SV} (I : InitLaw h0 ini sv0)
+    {f : OpFn} (L : OpLaw h0 f) {items : List Val} (hi : ∀ x ∈ items, Val.inb h0.length x = true) :
+    Frame h.length h (foldWith ini f items h).2 ∧
+      ResRel h0.length h.length (foldWith ini f items h) (RefRes.ofSV (refReduce (foldStep f h0) items sv0)) := by
+  obtain ⟨hf, hh⟩ := I h c
+  have hl := foldLoop_spec c.closed c.frame.1 L items hi _ _ sv0 (c.frame.trans c.frame.1 hf) hf.1 hh
   refine ⟨hf.trans (Nat.le_refl _) hl.1, ?_⟩
-  simp only [withInit, hsv]
-  cases hr : refReduce (foldStep op h0) items sv with
+  unfold foldWith
+  cases hr : refReduce (foldStep f h0) items sv0 with
   | error e => rw [hr] at hl; exact hl.2
   | ok sv' =>
     rw [hr] at hl
@@ -638,16 +852,16 @@ theorem foldKind_spec {h0 h : Heap} (c : Ctx h0 h) (init : Init) (op : Op) (hs :
     rw [← h1] at this
     exact this
 
-theorem mergeKind_spec {h0 h : Heap} (c : Ctx h0 h) (init : Init) (op : Op) (hs : init.allocates = true)
-    {items : List Val} (hi : ∀ x ∈ items, Val.inb h0.length x = true) :
-    let out := mergeLoop op (callInit init h).1 items (callInit init h).2
-    Frame h.length h out.2 ∧
-      ResRel h0.length h.length out (withInit h0 init (refReduce (mergeStep op h0) items)) := by
-  obtain ⟨sv, hsv, hf, hh⟩ := callInit_spec h0 init hs h
-  have hl := mergeLoop_spec c.closed c.frame.1 op _ items hi _ sv (c.frame.trans c.frame.1 hf) hf.1 hh
+/-- **Merge._fold = successive in-place merges** for EVERY lawful factory and operator -/
+theorem mergeWith_spec {h0 h : Heap} (c : Ctx h0 h) {ini : InitFn} {sv0 : SV} (I : InitLaw h0 ini sv0)
+    {f : OpFn} (L : OpLaw h0 f) {items : List Val} (hi : ∀ x ∈ items, Val.inb h0.length x = true) :
+    Frame h.length h (mergeWith ini f items h).2 ∧
+      ResRel h0.length h.length (mergeWith ini f items h) (RefRes.ofSV (refReduce (mergeStep f h0) items sv0)) := by
+  obtain ⟨hf, hh⟩ := I h c
+  have hl := mergeLoop_spec c.closed c.frame.1 L _ items hi _ sv0 (c.frame.trans c.frame.1 hf) hf.1 hh
   refine ⟨hf.trans (Nat.le_refl _) hl.1, ?_⟩
-  simp only [withInit, hsv]
-  cases hr : refReduce (mergeStep op h0) items sv with
+  unfold mergeWith
+  cases hr : refReduce (mergeStep f h0) items sv0 with
   | error e => rw [hr] at hl; exact hl.2
   | ok sv' =>
     rw [hr] at hl
@@ -656,7 +870,25 @@ theorem mergeKind_spec {h0 h : Heap} (c : Ctx h0 h) (init : Init) (op : Op) (hs 
     rw [← h1] at this
     exact this
 
-theorem runFold_spec {h0 h : Heap} (c : Ctx h0 h) (s : FoldSpec) (hs : s.init.allocates = true)
+theorem foldKind_spec {h0 h : Heap} (c : Ctx h0 h) (init : Init) (op : Op) (hs : InitOK h0 init)
+    {items : List Val} (hi : ∀ x ∈ items, Val.inb h0.length x = true) :
+    let out := foldWith (callInit init) (pyOp op) items h
+    Frame h.length h out.2 ∧
+      ResRel h0.length h.length out (withInit h0 init (refReduce (foldStep (pyOp op) h0) items)) := by
+  obtain ⟨sv, hsv, I⟩ := callInit_law hs
+  simp only [withInit, hsv]
+  exact foldWith_spec c I (pyOp_law h0 op) hi
+
+theorem mergeKind_spec {h0 h : Heap} (c : Ctx h0 h) (init : Init) (op : Op) (hs : InitOK h0 init)
+    {items : List Val} (hi : ∀ x ∈ items, Val.inb h0.length x = true) :
+    let out := mergeWith (callInit init) (pyOp op) items h
+    Frame h.length h out.2 ∧
+      ResRel h0.length h.length out (withInit h0 init (refReduce (mergeStep (pyOp op) h0) items)) := by
+  obtain ⟨sv, hsv, I⟩ := callInit_law hs
+  simp only [withInit, hsv]
+  exact mergeWith_spec c I (pyOp_law h0 op) hi
+
+theorem runFold_spec {h0 h : Heap} (c : Ctx h0 h) (s : FoldSpec) (hs : InitOK h0 s.init)
     {items : List Val} (hi : ∀ x ∈ items, Val.inb h0.length x = true) :
     Frame h.length h (runFold s items h).2 ∧
       ResRel h0.length h.length (runFold s items h) (refKind h0 s items) := by
@@ -675,7 +907,7 @@ theorem runFold_spec {h0 h : Heap} (c : Ctx h0 h) (s : FoldSpec) (hs : s.init.al
 
 theorem glomit_spec {h0 h : Heap} (c : Ctx h0 h) (env : Env)
     (hcatch : regLookup env.foldCatch "UnregisteredTarget" = some "FoldError")
-    (s : FoldSpec) (hs : s.init.allocates = true) {target : Val}
+    (s : FoldSpec) (hs : InitOK h0 s.init) {target : Val}
     (hsub : ∀ k ∈ s.sub, Val.inb h0.length k = true) (ht : Val.inb h0.length target = true) :
     Frame h.length h (glomit env s h target).2 ∧
       ResRel h0.length h.length (glomit env s h target) (refSpec env h0 s target) := by
@@ -708,19 +940,42 @@ theorem chainEval_single (env : Env) (s : FoldSpec) (h : Heap) (cur : Val) :
   rcases hg : glomit env s h cur with ⟨r, h'⟩
   cases r <;> rfl
 
+/-- chain objects are iterated with `iter`, and a failing `iter` surfaces as TypeError -/
+structure ChainOK (env : Env) : Prop where
+  lk : env.lk "chain" = .ok "iter"
+  conv : regLookup env.iterCatch "Exception" = some "TypeError"
+
+/-- the hypotheses on the `init` argument of Flatten / flatten() -/
+def InitArgOK (h0 : Heap) : InitArg → Prop
+  | .lazy => True
+  | .init i => InitOK h0 i
+
+theorem InitOK.plain (h0 : Heap) {i : Init} (ha : i.allocates = true) (hv : i.vals = []) (hw : i.wf h0 = true) :
+    InitOK h0 i := ⟨ha, hw, by simp [hv]⟩
+
+theorem InitArgOK.mk {h0 : Heap} {init : InitArg} (hi : InitArgOK h0 init) : InitOK h0 (mkFlatten [] init).init := by
+  cases init with
+  | lazy => exact InitOK.plain h0 rfl rfl rfl
+  | init i => exact hi
+
+theorem InitArgOK.mk' {h0 : Heap} {init : InitArg} (sub : List Val) (hi : InitArgOK h0 init) :
+    InitOK h0 (mkFlatten sub init).init := by
+  cases init with
+  | lazy => exact InitOK.plain h0 rfl rfl rfl
+  | init i => exact hi
+
 /-- iterating a chain object whose outer items are input values -/
 theorem targetIter_chain {h0 h : Heap} (c : Ctx h0 h) (env : Env)
-    (hchain : iterHandlerOf env "chain" true = some "iter") {a : Nat} {xs : List Val}
+    (hchain : ChainOK env) {a : Nat} {xs : List Val}
     (ha : h[a]? = some (.tuple "chain" xs)) (hx : ∀ x ∈ xs, Val.inb h0.length x = true) :
     targetIter env h (.ref a) =
       match joinWith (rawIter1 h0) xs with
       | some ys => .ok ys
       | none => .error (.raised "TypeError") := by
   have h1 : (Val.ref a).clsName h = "chain" := by simp [Val.clsName, ha, Obj.cls]
-  have h2 : hasIter h (.ref a) = true := by simp [hasIter, ha]
-  have h3 : rawIter h (.ref a) = joinWith (rawIter1 h0) xs := by
-    simp [rawIter, ha, joinWith_ext c hx]
-  simp only [targetIter, iterHandler, h1, h2, hchain, h3]
+  have h3 : runHandler "iter" h (.ref a) = joinWith (rawIter1 h0) xs := by
+    simp [runHandler, rawIter, ha, joinWith_ext c hx]
+  simp only [targetIter, applyHandler, h1, hchain.lk, h3, handlerFailure, hchain.conv]
   cases joinWith (rawIter1 h0) xs <;> rfl
 
 /-- what `refFlattenFn` does once the joins are done -/
@@ -734,7 +989,7 @@ theorem refAfter_eq (h0 : Heap) (init : InitArg) (j : Option (List Val)) :
       | some ys =>
         match init with
         | .lazy => .new (.tuple "chain" ys)
-        | .init i => withInit h0 i (refReduce (foldStep .iadd h0) ys)) = refAfter h0 init j := by
+        | .init i => withInit h0 i (refReduce (foldStep (pyOp .iadd) h0) ys)) = refAfter h0 init j := by
   cases j with
   | none => rfl
   | some ys => cases init <;> rfl
@@ -746,18 +1001,15 @@ theorem joinN_succ (h0 : Heap) (n : Nat) (xs : List Val) :
 
 /-- from a chain object on: `k` lazy levels and the final one are `k+1` joins -/
 theorem chainStage_spec {h0 : Heap} (hc : closedHeap h0 = true) (env : Env)
-    (hchain : iterHandlerOf env "chain" true = some "iter")
+    (hchain : ChainOK env)
     (hcatch : regLookup env.foldCatch "UnregisteredTarget" = some "FoldError")
-    (init : InitArg) (hinit : init.allocates = true) :
+    (init : InitArg) (hinit : InitArgOK h0 init) :
     ∀ (k : Nat) (h : Heap) (a : Nat) (xs : List Val), Frame h0.length h0 h →
       h[a]? = some (.tuple "chain" xs) → (∀ x ∈ xs, Val.inb h0.length x = true) →
       let out := chainEval env (List.replicate k (mkFlatten [] .lazy) ++ [mkFlatten [] init]) h (.ref a)
       Frame h.length h out.2 ∧
         ResRel h0.length h.length out (refAfter h0 init (joinN h0 (k + 1) xs)) := by
-  have hfin : (mkFlatten [] init).init.allocates = true := by
-    cases init with
-    | lazy => rfl
-    | init i => exact hinit
+  have hfin : InitOK h0 (mkFlatten [] init).init := hinit.mk
   intro k
   induction k with
   | zero =>
@@ -803,18 +1055,15 @@ theorem refFlattenFn_pos (env : Env) (h0 : Heap) (sub : List Val) (init : InitAr
   | error e => rfl
   | ok items => exact refAfter_eq h0 init _
 
-theorem flattenFn_spec {h0 h : Heap} (c : Ctx h0 h) (env : Env)
-    (hchain : iterHandlerOf env "chain" true = some "iter")
+theorem flattenFn_spec {h0 h : Heap} (c : Ctx h0 h) (env : Env) {levels : Int}
+    (hchain : 2 ≤ levels → ChainOK env)
     (hcatch : regLookup env.foldCatch "UnregisteredTarget" = some "FoldError")
-    (sub : List Val) (init : InitArg) (levels : Int) (hinit : init.allocates = true) {target : Val}
+    (sub : List Val) (init : InitArg) (hinit : InitArgOK h0 init) {target : Val}
     (hsub : ∀ k ∈ sub, Val.inb h0.length k = true) (ht : Val.inb h0.length target = true) :
     Frame h.length h (flattenFn env sub init levels h target).2 ∧
       ResRel h0.length h.length (flattenFn env sub init levels h target)
         (refFlattenFn env h0 sub init levels target) := by
-  have hfin : (mkFlatten [] init).init.allocates = true := by
-    cases init with
-    | lazy => rfl
-    | init i => exact hinit
+  have hfin : InitOK h0 (mkFlatten [] init).init := hinit.mk
   by_cases h0l : (levels == 0) = true
   · unfold flattenFn refFlattenFn
     simp only [h0l, if_true]; exact ⟨Frame.rfl' (Nat.le_refl _), rfl, ht⟩
@@ -862,20 +1111,35 @@ theorem flattenFn_spec {h0 h : Heap} (c : Ctx h0 h) (env : Env)
           | ok items =>
             simp only
             have hfr : Frame h.length h (h ++ [Obj.tuple "chain" items]) := Frame.append (Nat.le_refl _) _
-            have := chainStage_spec c.closed env hchain hcatch init hinit k
+            have := chainStage_spec c.closed env (hchain (by omega)) hcatch init hinit k
               (h ++ [.tuple "chain" items]) h.length items (c.frame.trans c.frame.1 hfr)
               List.getElem?_concat_length (targetIter_inb c.closed env htin hti)
             exact ⟨hfr.trans hfr.1 this.1, ResRel.mono hfr.1 this.2⟩
 
 /-! ### Merge's constructor, merge() -/
 
-theorem mkMerge_spec (h0 : Heap) (sub : List Val) (init : Init) (op : MergeOpArg) (hi : init.allocates = true)
-    (h : Heap) :
+theorem Holds.clsName {h : Heap} {b : Nat} {acc : Val} {sv : SV} (hh : Holds h b acc sv) (h0 : Heap) :
+    acc.clsName h = match sv with
+      | .cell o => o.cls
+      | .imm v => v.clsName h0 := by
+  cases sv with
+  | imm v =>
+    obtain ⟨rfl, hn⟩ := hh
+    cases acc <;> first | rfl | exact absurd rfl (hn _)
+  | cell o =>
+    obtain ⟨a, rfl, _, h3, _⟩ := hh
+    simp [Val.clsName, h3]
+
+theorem mkMerge_spec {h0 h : Heap} (c : Ctx h0 h) (sub : List Val) (init : Init) (op : MergeOpArg)
+    (hi : InitOK h0 init) :
     Frame h.length h (mkMerge sub init op h).2 ∧
       (mkMerge sub init op h).1 =
         (match refMergeOp h0 init op with
          | .ok o => .ok ⟨.merge, sub, init, o, false⟩
          | .error e => .error e) := by
+  obtain ⟨sv, hsv, I⟩ := callInit_law hi
+  obtain ⟨hf, hh⟩ := I h c
+  have hcls := hh.clsName h0
   have key : ∀ n : String,
       Frame h.length h (let (t, h1) := callInit init h
         match methodOf (t.clsName h1) n with
@@ -896,14 +1160,11 @@ theorem mkMerge_spec (h0 : Heap) (sub : List Val) (init : Init) (op : MergeOpArg
         | .ok o => .ok ⟨.merge, sub, init, o, false⟩
         | .error e => .error e) := by
     intro n
-    cases init with
-    | shared v => cases hi
-    | int | str =>
-      simp only [callInit, initSV, Val.clsName]
-      cases methodOf _ n <;> exact ⟨Frame.rfl' (Nat.le_refl _), rfl⟩
-    | list | tuple | dict | odict | acc =>
-      simp only [callInit, materialise, initSV, Val.clsName, List.getElem?_concat_length, Obj.cls]
-      cases methodOf _ n <;> exact ⟨Frame.append (Nat.le_refl _) _, rfl⟩
+    rw [hsv]
+    simp only [hcls]
+    cases sv with
+    | imm v => dsimp only; cases methodOf (v.clsName h0) n <;> exact ⟨hf, rfl⟩
+    | cell o => dsimp only; cases methodOf o.cls n <;> exact ⟨hf, rfl⟩
   cases op with
   | none => exact key "update"
   | name n => exact key n
@@ -912,11 +1173,11 @@ theorem mkMerge_spec (h0 : Heap) (sub : List Val) (init : Init) (op : MergeOpArg
 
 theorem mergeFn_spec {h0 h : Heap} (c : Ctx h0 h) (env : Env)
     (hcatch : regLookup env.foldCatch "UnregisteredTarget" = some "FoldError")
-    (sub : List Val) (init : Init) (op : MergeOpArg) (hinit : init.allocates = true) {target : Val}
+    (sub : List Val) (init : Init) (op : MergeOpArg) (hinit : InitOK h0 init) {target : Val}
     (hsub : ∀ k ∈ sub, Val.inb h0.length k = true) (ht : Val.inb h0.length target = true) :
     Frame h.length h (mergeFn env sub init op h target).2 ∧
       ResRel h0.length h.length (mergeFn env sub init op h target) (refMerge env h0 sub init op target) := by
-  have hm := mkMerge_spec h0 sub init op hinit h
+  have hm := mkMerge_spec c sub init op hinit
   unfold mergeFn refMerge
   rcases hmk : mkMerge sub init op h with ⟨r, h1⟩
   rw [hmk] at hm
@@ -1093,7 +1354,7 @@ theorem refReduce_eq_foldlM (step : SV → Val → Except Err SV) (items : List 
 
 theorem reduce_iadd_int (h0 : Heap) :
     ∀ (items : List Val) (is : List Int) (a : Int), allInts items = some is →
-      refReduce (foldStep .iadd h0) items (.imm (.int a)) = .ok (.imm (.int (a + is.sum))) := by
+      refReduce (foldStep (pyOp .iadd) h0) items (.imm (.int a)) = .ok (.imm (.int (a + is.sum))) := by
   intro items
   induction items with
   | nil => intro is a h; simp [allInts] at h; subst h; simp [refReduce]
@@ -1107,14 +1368,13 @@ theorem reduce_iadd_int (h0 : Heap) :
       | none => simp [hv, hvs] at h
       | some is' =>
         simp [hv, hvs] at h; subst h
-        have ha : asInt (.int a) = some a := rfl
-        have : foldStep .iadd h0 (.imm (.int a)) v = .ok (.imm (.int (a + i))) := by
-          simp only [foldStep, pyOp, pyAdd, ha, hv, Except.map, foldRet]
+        have : foldStep (pyOp .iadd) h0 (.imm (.int a)) v = .ok (.imm (.int (a + i))) := by
+          cases v <;> simp [asInt] at hv <;> subst hv <;> rfl
         simp only [refReduce, this, ih is' (a + i) hvs, List.sum_cons, Int.add_assoc]
 
 theorem reduce_iadd_list (h0 : Heap) :
     ∀ (items : List Val) (acc : List Val),
-      refReduce (foldStep .iadd h0) items (.cell (.list "list" acc)) =
+      refReduce (foldStep (pyOp .iadd) h0) items (.cell (.list "list" acc)) =
         match joinWith (rawIter h0) items with
         | some ys => .ok (.cell (.list "list" (acc ++ ys)))
         | none => .error typeErr := by
@@ -1123,7 +1383,7 @@ theorem reduce_iadd_list (h0 : Heap) :
   | nil => intro acc; simp [refReduce, joinWith]
   | cons v vs ih =>
     intro acc
-    have hstep : foldStep .iadd h0 (.cell (.list "list" acc)) v =
+    have hstep : foldStep (pyOp .iadd) h0 (.cell (.list "list" acc)) v =
         match rawIter h0 v with
         | some ys => .ok (.cell (.list "list" (acc ++ ys)))
         | none => .error typeErr := by
@@ -1249,7 +1509,7 @@ theorem applyPairs_append (es ps qs : List (Val × Val)) :
 
 theorem reduce_update_dicts (h0 : Heap) (c : String) (hc : (c == "Acc") = false) :
     ∀ (items : List Val) (ds : List (List (Val × Val))) (es : List (Val × Val)), dictsOf h0 items = some ds →
-      refReduce (mergeStep (.update c) h0) items (.cell (.dict c es)) =
+      refReduce (mergeStep (pyOp (.update c)) h0) items (.cell (.dict c es)) =
         .ok (.cell (.dict c (applyPairs es ds.flatten))) := by
   intro items
   induction items with
@@ -1268,21 +1528,128 @@ theorem reduce_update_dicts (h0 : Heap) (c : String) (hc : (c == "Acc") = false)
           | none => simp [ho, hds] at h
           | some ds' =>
             simp [ho, hds] at h; subst h
-            have : mergeStep (.update c) h0 (.cell (.dict c es)) (.ref a) =
+            have : mergeStep (pyOp (.update c)) h0 (.cell (.dict c es)) (.ref a) =
                 .ok (.cell (.dict c (applyPairs es es2))) := by
               simp [mergeStep, pyOp, pyUpdate, hc, updatePairs, ho, Except.map, mergeRet]
             simp only [refReduce, this, ih ds' _ hds, List.flatten_cons, applyPairs_append]
         | _ => simp [ho] at h
     | _ => simp [dictsOf] at h
 
+/-! ### dictionaries: first writer wins (`setdefault`) -/
+
+theorem dictLookup_eq_firstPair (es : List (Val × Val)) (q : Val) : dictLookup es q = firstPair es q := by
+  induction es with
+  | nil => rfl
+  | cons p es ih =>
+    rw [dictLookup_cons, firstPair, ih]
+
+theorem dictLookup_append (es fs : List (Val × Val)) (q : Val) :
+    dictLookup (es ++ fs) q = match dictLookup es q with
+      | some v => some v
+      | none => dictLookup fs q := by
+  induction es with
+  | nil => simp [dictLookup]
+  | cons p es ih =>
+    simp only [List.cons_append, dictLookup_cons, ih]
+    cases pyKeyEq p.1 q <;> rfl
+
+theorem dictLookup_key_congr {es : List (Val × Val)} {k q : Val} (hkq : pyKeyEq k q = true) :
+    dictLookup es k = dictLookup es q := by
+  induction es with
+  | nil => rfl
+  | cons p es ih =>
+    simp only [dictLookup_cons, ih]
+    have : pyKeyEq p.1 k = pyKeyEq p.1 q := by
+      simp only [pyKeyEq_norm, decide_eq_true_eq] at hkq ⊢
+      rw [hkq]
+    rw [this]
+
+theorem dictLookup_setDefault (es : List (Val × Val)) (k x q : Val) :
+    dictLookup (dictSetDefault es k x) q = match dictLookup es q with
+      | some v => some v
+      | none => if pyKeyEq k q then some x else none := by
+  unfold dictSetDefault
+  cases hk : dictLookup es k with
+  | some v =>
+    simp only
+    cases hq : dictLookup es q with
+    | some w => rfl
+    | none =>
+      by_cases hkq : pyKeyEq k q = true
+      · rw [dictLookup_key_congr hkq, hq] at hk; cases hk
+      · simp [hkq]
+  | none =>
+    have hnil : dictLookup ([] : List (Val × Val)) q = none := rfl
+    simp only
+    rw [dictLookup_append, dictLookup_cons, hnil]
+    cases dictLookup es q with
+    | some w => rfl
+    | none => cases pyKeyEq k q <;> rfl
+
+theorem dictLookup_setDefaults (ps : List (Val × Val)) :
+    ∀ (es : List (Val × Val)) (q : Val),
+      dictLookup (ps.foldl (fun e p => dictSetDefault e p.1 p.2) es) q =
+        match dictLookup es q with
+        | some v => some v
+        | none => firstPair ps q := by
+  induction ps with
+  | nil => intro es q; simp only [List.foldl_nil, firstPair]; cases dictLookup es q <;> rfl
+  | cons p ps ih =>
+    intro es q
+    simp only [List.foldl_cons, ih, dictLookup_setDefault, firstPair]
+    cases dictLookup es q with
+    | some v => rfl
+    | none => cases pyKeyEq p.1 q <;> rfl
+
+theorem setDefaults_append (es ps qs : List (Val × Val)) :
+    (ps ++ qs).foldl (fun e p => dictSetDefault e p.1 p.2) es =
+      qs.foldl (fun e p => dictSetDefault e p.1 p.2) (ps.foldl (fun e p => dictSetDefault e p.1 p.2) es) := by
+  simp [List.foldl_append]
+
+theorem reduce_firstWins_dicts (h0 : Heap) (c : String) :
+    ∀ (items : List Val) (ds : List (List (Val × Val))) (es : List (Val × Val)), dictsOf h0 items = some ds →
+      refReduce (mergeStep (pyOp .firstWins) h0) items (.cell (.dict c es)) =
+        .ok (.cell (.dict c (ds.flatten.foldl (fun e p => dictSetDefault e p.1 p.2) es))) := by
+  intro items
+  induction items with
+  | nil => intro ds es h; simp [dictsOf] at h; subst h; simp [refReduce]
+  | cons v vs ih =>
+    intro ds es h
+    cases v with
+    | ref a =>
+      simp only [dictsOf] at h
+      cases ho : h0[a]? with
+      | none => simp [ho] at h
+      | some o =>
+        cases o with
+        | dict c2 es2 =>
+          cases hds : dictsOf h0 vs with
+          | none => simp [ho, hds] at h
+          | some ds' =>
+            simp [ho, hds] at h; subst h
+            have : mergeStep (pyOp .firstWins) h0 (.cell (.dict c es)) (.ref a) =
+                .ok (.cell (.dict c (es2.foldl (fun e p => dictSetDefault e p.1 p.2) es))) := by
+              simp [mergeStep, pyOp, pyFirstWins, ho, Except.map, mergeRet]
+            simp only [refReduce, this, ih ds' _ hds, List.flatten_cons, setDefaults_append]
+        | _ => simp [ho] at h
+    | _ => simp [dictsOf] at h
+
 /-! ### whole programs -/
+
+theorem WFConv_parts {env : Env} (hwf : WFConv env = true) :
+    regLookup env.foldCatch "UnregisteredTarget" = some "FoldError" ∧
+    regLookup env.iterCatch "Exception" = some "TypeError" ∧
+    env.excTable.isSub "FoldError" "GlomError" = true := by
+  simp only [WFConv, Bool.and_eq_true, beq_iff_eq] at hwf
+  exact ⟨hwf.1.1.1.1, hwf.1.1.1.2, hwf.1.1.2⟩
 
 theorem WF_parts {env : Env} (hwf : WF env = true) :
     regLookup env.foldCatch "UnregisteredTarget" = some "FoldError" ∧
-    iterHandlerOf env "chain" true = some "iter" ∧
+    ChainOK env ∧
     env.excTable.isSub "FoldError" "GlomError" = true := by
-  simp only [WF, Bool.and_eq_true, beq_iff_eq] at hwf
-  exact ⟨hwf.1.1.1.1.2, hwf.2, hwf.1.1.1.2⟩
+  simp only [WF, Bool.and_eq_true, chainIter, decide_eq_true_eq] at hwf
+  obtain ⟨h1, h2, h3⟩ := WFConv_parts hwf.1
+  exact ⟨h1, ⟨hwf.2, h2⟩, h3⟩
 
 theorem observeAll_errors (env : Env) (n0 : Nat) (hfin : Heap) (e : Err) :
     ∀ (targets : List Val) (earlier : List (Except Err Val)),
@@ -1305,71 +1672,112 @@ theorem evalAll_observe {h0 : Heap} (hc : closedHeap h0 = true) (env : Env)
   ⟨evalAll_frame hf targets ht h c,
    observeAll_spec hc env hf targets ht h c [] (by simp) _ (Frame.rfl' (Nat.le_refl _))⟩
 
-/-- **the whole run**: nothing that existed changes, and an observer sees exactly the reference -/
+/-- the hypotheses on a program: its sub-spec keys and `init` operands are input values, `init`
+    allocates, a copying factory copies a list / tuple / dict -/
+structure ProgOK (h0 : Heap) (p : Prog) : Prop where
+  inb : ∀ k ∈ progVals p, Val.inb h0.length k = true
+  allocates : p.initAllocates = true
+  wf : p.initWF h0 = true
+
+/-- the table-level evaluator of a program whose spec object is built (`merge`: see `runProg`) -/
+def progEval (p : Prog) : Env → Heap → Val → Except Err Val × Heap :=
+  match p with
+  | .fold sub i op => fun e => glomit e (mkFold sub i op)
+  | .sum sub i => fun e => glomit e (mkSum sub i)
+  | .count => fun e => glomit e mkCount
+  | .flatten sub i => fun e => glomit e (mkFlatten sub i)
+  | .merge sub i _ => fun e => glomit e ⟨.merge, sub, i, .iadd, false⟩      -- not used
+  | .flattenFn sub i l => fun e => flattenFn e sub i l
+  | .mergeFn sub i op => fun e => mergeFn e sub i op
+
+def Prog.isMerge : Prog → Bool
+  | .merge .. => true
+  | _ => false
+
+/-- every program but `Merge(...)` (which has a construction phase) realises its reference on
+    every later heap, under every handler table meeting the hypotheses -/
+theorem progEval_ok {h0 : Heap} {p : Prog} (hp : ProgOK h0 p) (hm : p.isMerge = false) (env : Env)
+    (hcatch : regLookup env.foldCatch "UnregisteredTarget" = some "FoldError")
+    (hchain : p.usesChain = true → ChainOK env) :
+    EvalOK h0 (progEval p env) (refProg env h0 p) := by
+  cases p with
+  | fold sub i op =>
+    have hs : ∀ k ∈ sub, Val.inb h0.length k = true := fun k hk => hp.inb k (by simp [progVals, hk])
+    have hi : InitOK h0 i := ⟨hp.allocates, hp.wf, fun v hv => hp.inb v (by simp [progVals, hv])⟩
+    exact fun h t c ht' => glomit_spec c env hcatch (mkFold sub i op) hi hs ht'
+  | sum sub i =>
+    have hs : ∀ k ∈ sub, Val.inb h0.length k = true := fun k hk => hp.inb k (by simp [progVals, hk])
+    have hi : InitOK h0 i := ⟨hp.allocates, hp.wf, fun v hv => hp.inb v (by simp [progVals, hv])⟩
+    exact fun h t c ht' => glomit_spec c env hcatch (mkSum sub i) hi hs ht'
+  | count =>
+    exact fun h t c ht' => glomit_spec c env hcatch mkCount (InitOK.plain h0 rfl rfl rfl) (by simp [mkCount]) ht'
+  | flatten sub i =>
+    have hs : ∀ k ∈ (mkFlatten sub i).sub, Val.inb h0.length k = true := by
+      intro k hk; apply hp.inb; cases i <;> simp [progVals, mkFlatten] at hk ⊢ <;> exact Or.inl hk
+    have hi : InitArgOK h0 i := by
+      cases i with
+      | lazy => trivial
+      | init j => exact ⟨hp.allocates, hp.wf, fun v hv => hp.inb v (by simp [progVals, InitArg.vals, hv])⟩
+    exact fun h t c ht' => glomit_spec c env hcatch (mkFlatten sub i) (hi.mk' sub) hs ht'
+  | flattenFn sub i l =>
+    have hs : ∀ k ∈ sub, Val.inb h0.length k = true := fun k hk => hp.inb k (by simp [progVals, hk])
+    have hi : InitArgOK h0 i := by
+      cases i with
+      | lazy => trivial
+      | init j => exact ⟨hp.allocates, hp.wf, fun v hv => hp.inb v (by simp [progVals, InitArg.vals, hv])⟩
+    exact fun h t c ht' => flattenFn_spec c env (fun hl => hchain (by simp [Prog.usesChain, hl])) hcatch sub i hi hs ht'
+  | mergeFn sub i op =>
+    have hs : ∀ k ∈ sub, Val.inb h0.length k = true := fun k hk => hp.inb k (by simp [progVals, hk])
+    have hi : InitOK h0 i := ⟨hp.allocates, hp.wf, fun v hv => hp.inb v (by simp [progVals, hv])⟩
+    exact fun h t c ht' => mergeFn_spec c env hcatch sub i op hi hs ht'
+  | merge sub i op => cases hm
+
+/-- **the whole run under one handler table**: nothing that existed changes, and an observer sees
+    exactly the reference -/
 theorem runProg_spec (env : Env) (hwf : WF env = true) (h0 : Heap) (hc : closedHeap h0 = true)
-    (p : Prog) (hp : ∀ k ∈ progVals p, Val.inb h0.length k = true) (hinit : p.initAllocates = true)
+    (p : Prog) (hp : ProgOK h0 p)
     (targets : List Val) (ht : ∀ t ∈ targets, Val.inb h0.length t = true) :
     Frame h0.length h0 (runProg env p targets h0).2 ∧
       observeAll env h0.length (runProg env p targets h0).2 [] (runProg env p targets h0).1 =
         targets.map (expectR env h0 p) := by
   obtain ⟨hcatch, hchain, _⟩ := WF_parts hwf
   have c0 := Ctx.base hc
-  cases p with
-  | fold sub i op =>
-    have hs : ∀ k ∈ sub, Val.inb h0.length k = true := fun k hk => hp k (by simp [progVals, hk])
-    exact evalAll_observe hc env (ref := refSpec env h0 (mkFold sub i op))
-      (fun h t c ht' => glomit_spec c env hcatch (mkFold sub i op) hinit hs ht') targets ht h0 c0
-  | sum sub i =>
-    have hs : ∀ k ∈ sub, Val.inb h0.length k = true := fun k hk => hp k (by simp [progVals, hk])
-    exact evalAll_observe hc env (ref := refSpec env h0 (mkSum sub i))
-      (fun h t c ht' => glomit_spec c env hcatch (mkSum sub i) hinit hs ht') targets ht h0 c0
-  | count =>
-    exact evalAll_observe hc env (ref := refSpec env h0 mkCount)
-      (fun h t c ht' => glomit_spec c env hcatch mkCount rfl (by simp [mkCount]) ht') targets ht h0 c0
-  | flatten sub i =>
-    have hs : ∀ k ∈ (mkFlatten sub i).sub, Val.inb h0.length k = true := by
-      intro k hk; apply hp; cases i <;> simpa [progVals, mkFlatten] using hk
-    have hi : (mkFlatten sub i).init.allocates = true := by
-      cases i with
-      | lazy => rfl
-      | init j => exact hinit
-    exact evalAll_observe hc env (ref := refSpec env h0 (mkFlatten sub i))
-      (fun h t c ht' => glomit_spec c env hcatch (mkFlatten sub i) hi hs ht') targets ht h0 c0
-  | flattenFn sub i l =>
-    have hs : ∀ k ∈ sub, Val.inb h0.length k = true := fun k hk => hp k (by simp [progVals, hk])
-    exact evalAll_observe hc env (ref := refFlattenFn env h0 sub i l)
-      (fun h t c ht' => flattenFn_spec c env hchain hcatch sub i l hinit hs ht') targets ht h0 c0
-  | mergeFn sub i op =>
-    have hs : ∀ k ∈ sub, Val.inb h0.length k = true := fun k hk => hp k (by simp [progVals, hk])
-    exact evalAll_observe hc env (ref := refMerge env h0 sub i op)
-      (fun h t c ht' => mergeFn_spec c env hcatch sub i op hinit hs ht') targets ht h0 c0
-  | merge sub i op =>
-    have hs : ∀ k ∈ sub, Val.inb h0.length k = true := fun k hk => hp k (by simp [progVals, hk])
-    have hm := mkMerge_spec h0 sub i op hinit h0
-    simp only [runProg, expectR, refProg, refMerge]
-    rcases hmk : mkMerge sub i op h0 with ⟨r, h1⟩
-    rw [hmk] at hm
-    simp only at hm
-    cases hro : refMergeOp h0 i op with
-    | error e =>
-      rw [hro] at hm
-      simp only [hm.2]
-      have hexp : List.map (expectR env h0 (Prog.merge sub i op)) targets =
-          targets.map (fun _ => errR env e) :=
-        List.map_congr_left (fun t _ => by simp [expectR, refProg, refMerge, hro, showRef])
-      rw [hexp]
-      exact ⟨hm.1, observeAll_errors env h0.length h1 e targets []⟩
-    | ok o =>
-      rw [hro] at hm
-      simp only [hm.2]
-      have c1 : Ctx h0 h1 := ⟨hc, hm.1⟩
-      have := evalAll_observe hc env (ref := refSpec env h0 ⟨.merge, sub, i, o, false⟩)
-        (fun h t c ht' => glomit_spec c env hcatch ⟨.merge, sub, i, o, false⟩ hinit hs ht') targets ht h1 c1
-      have hexp : List.map (expectR env h0 (Prog.merge sub i op)) targets =
-          targets.map (fun t => showRef env h0 (refSpec env h0 ⟨.merge, sub, i, o, false⟩ t)) :=
-        List.map_congr_left (fun t _ => by simp [expectR, refProg, refMerge, hro])
-      rw [hexp]
-      exact ⟨hm.1.trans hm.1.1 this.1, this.2⟩
+  by_cases hm : p.isMerge = false
+  · have hok := progEval_ok hp hm env hcatch (fun _ => hchain)
+    have := evalAll_observe hc env hok targets ht h0 c0
+    cases p with
+    | merge sub i op => cases hm
+    | _ => exact this
+  · cases p with
+    | merge sub i op =>
+      have hs : ∀ k ∈ sub, Val.inb h0.length k = true := fun k hk => hp.inb k (by simp [progVals, hk])
+      have hi : InitOK h0 i := ⟨hp.allocates, hp.wf, fun v hv => hp.inb v (by simp [progVals, hv])⟩
+      have hmm := mkMerge_spec c0 sub i op hi
+      simp only [runProg, expectR, refProg, refMerge]
+      rcases hmk : mkMerge sub i op h0 with ⟨r, h1⟩
+      rw [hmk] at hmm
+      simp only at hmm
+      cases hro : refMergeOp h0 i op with
+      | error e =>
+        rw [hro] at hmm
+        simp only [hmm.2]
+        have hexp : List.map (expectR env h0 (Prog.merge sub i op)) targets =
+            targets.map (fun _ => errR env e) :=
+          List.map_congr_left (fun t _ => by simp [expectR, refProg, refMerge, hro, showRef])
+        rw [hexp]
+        exact ⟨hmm.1, observeAll_errors env h0.length h1 e targets []⟩
+      | ok o =>
+        rw [hro] at hmm
+        simp only [hmm.2]
+        have c1 : Ctx h0 h1 := ⟨hc, hmm.1⟩
+        have := evalAll_observe hc env (ref := refSpec env h0 ⟨.merge, sub, i, o, false⟩)
+          (fun h t c ht' => glomit_spec c env hcatch ⟨.merge, sub, i, o, false⟩ hi hs ht') targets ht h1 c1
+        have hexp : List.map (expectR env h0 (Prog.merge sub i op)) targets =
+            targets.map (fun t => showRef env h0 (refSpec env h0 ⟨.merge, sub, i, o, false⟩ t)) :=
+          List.map_congr_left (fun t _ => by simp [expectR, refProg, refMerge, hro])
+        rw [hexp]
+        exact ⟨hmm.1.trans hmm.1.1 this.1, this.2⟩
+    | _ => exact absurd rfl hm
 
 theorem ofSV_not_same (x : Except Err SV) (v : Val) : RefRes.ofSV x ≠ .same v := by
   cases x with
@@ -1400,5 +1808,500 @@ theorem refSpec_not_same (env : Env) (h0 : Heap) (s : FoldSpec) (t v : Val) :
       split
       · simp
       · exact withInit_not_same _ _ _ v
+
+/-! ### the registry: the memo of `get_handler` is invisible -/
+
+/-- every memo entry is what a first lookup on the current tables would answer (and is a callable:
+    lookups with `raise_exc=True` never store `False`) -/
+def CacheOK (H : Hier) (r : Reg) : Prop :=
+  ∀ t op h, C13.odGet (t, op) r.cache = some h → h ≠ none ∧ C13.resolve H r op t = some h
+
+theorem CacheOK.of_empty {H : Hier} {r : Reg} (h : r.cache = []) : CacheOK H r := by
+  intro t op x hx
+  rw [h] at hx
+  simp [C13.odGet] at hx
+
+/-- `register` ends by emptying the memo -/
+theorem register_cacheOK (H : Hier) (r : Reg) (c : String) (e : Bool) (kw : List (String × Option String)) :
+    CacheOK H (C13.register H r c e kw) :=
+  CacheOK.of_empty rfl
+
+theorem pureLk_congr {H : Hier} {r r' : Reg} (h : C13.EqC r r') : pureLk H r = pureLk H r' := by
+  funext cls
+  simp only [pureLk, h.resolve H]
+
+theorem envOf_congr {H : Hier} {r r' : Reg} (h : C13.EqC r r') (env : Env) : envOf H env r = envOf H env r' := by
+  simp only [envOf, pureLk_congr h]
+
+/-- **one `get_handler('iterate', obj)` call through the memo** answers what the tables say,
+    leaves the tables alone and keeps the memo consistent -/
+theorem getHandler_memo {H : Hier} {r : Reg} (hc : CacheOK H r) (cls : String) :
+    lkAnswer (C13.getHandler H r "iterate" cls true).2 = pureLk H r cls ∧
+    C13.EqC (C13.getHandler H r "iterate" cls true).1 r ∧
+    CacheOK H (C13.getHandler H r "iterate" cls true).1 := by
+  refine ⟨?_, C13.getHandler_eqC H r "iterate" cls true, ?_⟩
+  · unfold C13.getHandler pureLk
+    cases hg : C13.odGet (cls, "iterate") r.cache with
+    | some h =>
+      obtain ⟨hn, hr⟩ := hc cls "iterate" h hg
+      simp only [hr]
+      cases h with
+      | none => exact absurd rfl hn
+      | some hn' => rfl
+    | none =>
+      simp only
+      cases hr : C13.resolve H r "iterate" cls with
+      | none => rfl
+      | some h =>
+        cases h with
+        | none => rfl
+        | some hn' => rfl
+  · unfold C13.getHandler
+    cases hg : C13.odGet (cls, "iterate") r.cache with
+    | some h => exact hc
+    | none =>
+      simp only
+      cases hr : C13.resolve H r "iterate" cls with
+      | none => exact hc
+      | some h =>
+        cases h with
+        | none => exact hc
+        | some hn' =>
+          simp only [Option.isNone_some, Bool.false_and, Bool.false_eq_true, if_false]
+          intro t op x hx
+          simp only at hx
+          rw [C13.odGet_odSet] at hx
+          rw [C13.resolve_cache_irrel]
+          by_cases hk : (t, op) = (cls, "iterate")
+          · simp only [hk, beq_self_eq_true, if_true, Option.some.injEq] at hx
+            subst hx
+            injection hk with h1 h2
+            subst h1; subst h2
+            exact ⟨by simp, hr⟩
+          · have : ((t, op) == (cls, "iterate")) = false := by simpa using hk
+            simp only [this, Bool.false_eq_true, if_false] at hx
+            exact hc t op x hx
+
+/-- the handler a `register(t, op=hd, …)` call names is what the tables answer for `t` right after
+    (exact or not, whatever was registered or looked up before) -/
+theorem resolve_register_self (H : Hier) (r : Reg) (t : String) (e : Bool) (kw : List (String × Option String))
+    (op : String) (hd : Option String) (hk : C13.odGet op kw = some hd) :
+    C13.resolve H (C13.register H r t e kw) op t = some hd := by
+  have hop : op ∈ C13.opsOf (r.autoMap.map (·.1)) kw := by
+    unfold C13.opsOf
+    rw [List.mem_eraseDups]
+    exact List.mem_append_left _ (List.mem_map.2 ⟨(op, hd), C13.odGet_some_mem hk, rfl⟩)
+  have hval := C13.setHandlers_value t (C13.pickHandler H r.typeMap r.autoMap t kw)
+    (C13.opsOf (r.autoMap.map (·.1)) kw) [] r.typeMap (fun _ h => by simp at h) op (Or.inr hop)
+  have hpick : C13.pickHandler H r.typeMap r.autoMap t kw op = hd := by simp [C13.pickHandler, hk]
+  rw [hpick] at hval
+  have hmap : C13.odGet t ((C13.register H r t e kw).map op) = some hd := by
+    simpa [C13.register, C13.Reg.map, C13.newOpMap] using hval
+  have hne : ((C13.register H r t e kw).map op).isEmpty = false := by
+    cases hm : (C13.register H r t e kw).map op with
+    | nil => rw [hm] at hmap; simp [C13.odGet] at hmap
+    | cons a l => rfl
+  unfold C13.resolve; simp [hne, hmap]
+
+theorem foldl_register_cache (H : Hier) (ds : List C13.DefaultReg) :
+    ∀ r : Reg, r.cache = [] → (ds.foldl (fun r x => C13.register H r x.ty x.exact x.kw) r).cache = [] := by
+  induction ds with
+  | nil => intro r h; exact h
+  | cons d ds ih => intro r _; exact ih _ rfl
+
+theorem foldl_registerOp_cache (H : Hier) (os : List C13.OpReg) :
+    ∀ r : Reg, r.cache = [] → (os.foldl (fun r o => C13.registerOp H r o.op o.auto o.exact []) r).cache = [] := by
+  induction os with
+  | nil => intro r h; exact h
+  | cons o os ih => intro r _; exact ih _ rfl
+
+/-- a freshly built registry has an empty memo -/
+theorem freshReg_cache (H : Hier) (S : C13.Setup) (d : Bool) : (C13.freshReg H S d).cache = [] := by
+  unfold C13.freshReg
+  have h0 := foldl_registerOp_cache H S.builtinOps ({} : Reg) rfl
+  cases d with
+  | false => exact h0
+  | true => exact foldl_register_cache H S.defaults _ h0
+
+theorem foldl_regAfter_congr (H : Hier) :
+    ∀ (es : List Event) {r r' : Reg}, C13.EqC r r' → C13.EqC (es.foldl (regAfter H) r) (es.foldl (regAfter H) r') := by
+  intro es
+  induction es with
+  | nil => intro _ _ h; exact h
+  | cons e es ih =>
+    intro r r' h
+    cases e with
+    | eval t => exact ih h
+    | register c ex kw => exact ih (h.register H c ex kw)
+
+theorem applyHandler_envOf (H : Hier) (env : Env) (r : Reg) (ans : Except IterErr String) (h : Heap) (v : Val) :
+    applyHandler (envOf H env r) ans h v = applyHandler env ans h v := rfl
+
+/-- an evaluator running against the registry refines the evaluator of the handler table the
+    registry's tables denote; it changes the memo only and keeps it consistent -/
+def Bridge (H : Hier) (env : Env) (fR : Reg → Heap → Val → (Except Err Val × Heap) × Reg)
+    (fP : Env → Heap → Val → Except Err Val × Heap) : Prop :=
+  ∀ r h t, CacheOK H r →
+    (fR r h t).1 = fP (envOf H env r) h t ∧ C13.EqC (fR r h t).2 r ∧ CacheOK H (fR r h t).2
+
+theorem targetIterR_eq {H : Hier} (env : Env) {r : Reg} (hc : CacheOK H r) (h : Heap) (v : Val) :
+    (targetIterR H env r h v).1 = targetIter (envOf H env r) h v ∧
+    C13.EqC (targetIterR H env r h v).2 r ∧ CacheOK H (targetIterR H env r h v).2 := by
+  obtain ⟨h1, h2, h3⟩ := getHandler_memo hc (v.clsName h)
+  refine ⟨?_, h2, h3⟩
+  simp only [targetIterR, targetIter, h1, applyHandler_envOf]
+  rfl
+
+theorem EqC.refl' (r : Reg) : C13.EqC r r := ⟨rfl, rfl, rfl⟩
+
+/-- **the memo is invisible to one evaluation** -/
+theorem glomitR_bridge (H : Hier) (env : Env) (s : FoldSpec) :
+    Bridge H env (glomitR H env s) (fun e => glomit e s) := by
+  intro r h t hc
+  show (glomitR H env s r h t).1 = glomit (envOf H env r) s h t ∧ _ ∧ _
+  unfold glomitR glomit
+  cases he : evalSub h s.sub t with
+  | error e => exact ⟨rfl, EqC.refl' r, hc⟩
+  | ok w =>
+    obtain ⟨h1, h2, h3⟩ := targetIterR_eq env hc h w
+    simp only
+    rw [← h1]
+    rcases hti : targetIterR H env r h w with ⟨res, r'⟩
+    rw [hti] at h2 h3
+    cases res with
+    | error ie => exact ⟨rfl, h2, h3⟩
+    | ok items => exact ⟨rfl, h2, h3⟩
+
+theorem chainEvalR_bridge (H : Hier) (env : Env) :
+    ∀ ss : List FoldSpec, Bridge H env (chainEvalR H env ss) (fun e => chainEval e ss) := by
+  intro ss
+  induction ss with
+  | nil => intro r h t hc; exact ⟨rfl, EqC.refl' r, hc⟩
+  | cons s ss ih =>
+    intro r h t hc
+    show (chainEvalR H env (s :: ss) r h t).1 = chainEval (envOf H env r) (s :: ss) h t ∧ _ ∧ _
+    obtain ⟨h1, h2, h3⟩ := glomitR_bridge H env s r h t hc
+    simp only [chainEvalR, chainEval]
+    simp only at h1
+    rw [← h1]
+    rcases hg : glomitR H env s r h t with ⟨⟨res, h'⟩, r'⟩
+    rw [hg] at h2 h3
+    cases res with
+    | error e => exact ⟨rfl, h2, h3⟩
+    | ok v =>
+      simp only
+      obtain ⟨g1, g2, g3⟩ := ih r' h' v h3
+      simp only at g1
+      rw [envOf_congr h2] at g1
+      exact ⟨g1, ⟨g2.1.trans h2.1, g2.2.1.trans h2.2.1, g2.2.2.trans h2.2.2⟩, g3⟩
+
+theorem flattenFnR_bridge (H : Hier) (env : Env) (sub : List Val) (init : InitArg) (l : Int) :
+    Bridge H env (flattenFnR H env sub init l) (fun e => flattenFn e sub init l) := by
+  intro r h t hc
+  show (flattenFnR H env sub init l r h t).1 = flattenFn (envOf H env r) sub init l h t ∧ _ ∧ _
+  unfold flattenFnR flattenFn
+  by_cases h0l : (l == 0) = true
+  · rw [if_pos h0l, if_pos h0l]; exact ⟨rfl, EqC.refl' r, hc⟩
+  · rw [if_neg h0l, if_neg h0l]
+    by_cases hneg : l < 0
+    · rw [if_pos hneg, if_pos hneg]; exact ⟨rfl, EqC.refl' r, hc⟩
+    · rw [if_neg hneg, if_neg hneg]
+      cases he : evalSub h sub t with
+      | error e => exact ⟨rfl, EqC.refl' r, hc⟩
+      | ok w => exact chainEvalR_bridge H env _ r h w hc
+
+theorem mergeFnR_bridge (H : Hier) (env : Env) (sub : List Val) (init : Init) (op : MergeOpArg) :
+    Bridge H env (mergeFnR H env sub init op) (fun e => mergeFn e sub init op) := by
+  intro r h t hc
+  show (mergeFnR H env sub init op r h t).1 = mergeFn (envOf H env r) sub init op h t ∧ _ ∧ _
+  unfold mergeFnR mergeFn
+  rcases hm : mkMerge sub init op h with ⟨res, h1⟩
+  cases res with
+  | error e => exact ⟨rfl, EqC.refl' r, hc⟩
+  | ok s => exact glomitR_bridge H env s r h1 t hc
+
+/-! ### histories: evaluations and registrations -/
+
+/-- `good` holds of the handler table in force at every evaluation of the history -/
+def GoodAlong (H : Hier) (env : Env) (good : Env → Prop) : List Event → Reg → Prop
+  | [], _ => True
+  | .eval _ :: es, r => good (envOf H env r) ∧ GoodAlong H env good es r
+  | .register c e kw :: es, r => GoodAlong H env good es (C13.register H r c e kw)
+
+theorem GoodAlong_congr {H : Hier} {env : Env} {good : Env → Prop} :
+    ∀ (es : List Event) {r r' : Reg}, C13.EqC r r' → GoodAlong H env good es r → GoodAlong H env good es r' := by
+  intro es
+  induction es with
+  | nil => intro _ _ _ _; trivial
+  | cons e es ih =>
+    intro r r' hq hg
+    cases e with
+    | eval t => exact ⟨envOf_congr hq env ▸ hg.1, ih hq hg.2⟩
+    | register c ex kw =>
+      simp only [GoodAlong] at hg ⊢
+      rw [← C13.register_eq_of_eqC hq]; exact hg
+
+/-- what an observer is expected to see of a history, evaluation by evaluation -/
+def expectList (H : Hier) (env : Env) (h0 : Heap) (ref : Env → Val → RefRes) : List Event → Reg → List R
+  | [], _ => []
+  | .eval t :: es, r => showRef env h0 (ref (envOf H env r) t) :: expectList H env h0 ref es r
+  | .register c e kw :: es, r => expectList H env h0 ref es (C13.register H r c e kw)
+
+theorem expectList_congr {H : Hier} {env : Env} {h0 : Heap} {ref : Env → Val → RefRes} :
+    ∀ (es : List Event) {r r' : Reg}, C13.EqC r r' →
+      expectList H env h0 ref es r = expectList H env h0 ref es r' := by
+  intro es
+  induction es with
+  | nil => intro _ _ _; rfl
+  | cons e es ih =>
+    intro r r' hq
+    cases e with
+    | eval t => simp only [expectList, envOf_congr hq env, ih hq]
+    | register c ex kw => simp only [expectList, C13.register_eq_of_eqC hq]
+
+theorem mem_targets_cons_eval {t x : Val} {es : List Event} :
+    x ∈ Event.targets (.eval t :: es) ↔ x = t ∨ x ∈ Event.targets es := by
+  simp [Event.targets]
+
+/-- **a whole history**: nothing that existed changes, and an observer sees, evaluation by
+    evaluation, the reference under the handler table of that moment -/
+theorem evalEvents_spec {h0 : Heap} (hc : closedHeap h0 = true) (H : Hier) (env : Env)
+    {fR : Reg → Heap → Val → (Except Err Val × Heap) × Reg} {fP : Env → Heap → Val → Except Err Val × Heap}
+    {ref : Env → Val → RefRes} {good : Env → Prop}
+    (hb : Bridge H env fR fP) (hok : ∀ e, good e → EvalOK h0 (fP e) (ref e)) :
+    ∀ (events : List Event), (∀ t ∈ Event.targets events, Val.inb h0.length t = true) →
+    ∀ (r : Reg) (h : Heap), CacheOK H r → Ctx h0 h → GoodAlong H env good events r →
+      Frame h.length h (evalEvents H fR events r h).2.1 ∧
+      ∀ (earlier : List (Except Err Val)), (∀ a, Except.ok (Val.ref a) ∈ earlier → a < h.length) →
+      ∀ (hfin : Heap), Frame (evalEvents H fR events r h).2.1.length (evalEvents H fR events r h).2.1 hfin →
+        observeAll env h0.length hfin earlier (evalEvents H fR events r h).1 =
+          expectList H env h0 ref events r := by
+  intro events
+  induction events with
+  | nil => intro _ r h _ _ _; exact ⟨Frame.rfl' (Nat.le_refl _), fun _ _ _ _ => rfl⟩
+  | cons ev es ih =>
+    intro ht r h hcr c hg
+    cases ev with
+    | register cl ex kw =>
+      simp only [evalEvents, expectList]
+      exact ih (fun t htm => ht t (by simpa [Event.targets] using htm)) _ h (register_cacheOK H r cl ex kw) c hg
+    | eval t =>
+      have htin : Val.inb h0.length t = true := ht t (mem_targets_cons_eval.mpr (Or.inl rfl))
+      have hts : ∀ x ∈ Event.targets es, Val.inb h0.length x = true :=
+        fun x hx => ht x (mem_targets_cons_eval.mpr (Or.inr hx))
+      obtain ⟨b1, b2, b3⟩ := hb r h t hcr
+      have hft := hok _ hg.1 h t c htin
+      rw [← b1] at hft
+      have c1 : Ctx h0 (fR r h t).1.2 := c.step c.frame.1 hft.1
+      have hg' : GoodAlong H env good es (fR r h t).2 :=
+        GoodAlong_congr es ⟨b2.1.symm, b2.2.1.symm, b2.2.2.symm⟩ hg.2
+      have hrest := ih hts (fR r h t).2 (fR r h t).1.2 b3 c1 hg'
+      simp only [evalEvents]
+      refine ⟨hft.1.trans hft.1.1 hrest.1, ?_⟩
+      intro earlier he hfin hfr
+      simp only [observeAll, expectList]
+      have cfin : Ctx h0 hfin := (c1.step c1.frame.1 hrest.1).step
+        (Nat.le_trans c1.frame.1 hrest.1.1) hfr
+      have hkeep : ∀ a, a < (fR r h t).1.2.length → hfin[a]? = (fR r h t).1.2[a]? := by
+        intro a ha
+        rw [hfr.2 a (Nat.lt_of_lt_of_le ha hrest.1.1), hrest.1.2 a ha]
+      congr 1
+      · exact observeOne_spec cfin env c.frame.1 he (r := ref (envOf H env r) t) (h1 := (fR r h t).1.2) hft.2 hkeep
+      · rw [expectList_congr es ⟨b2.1.symm, b2.2.1.symm, b2.2.2.symm⟩]
+        apply hrest.2 _ _ hfin hfr
+        intro a ha
+        rcases List.mem_append.mp ha with h1 | h1
+        · exact Nat.lt_of_lt_of_le (he a h1) hft.1.1
+        · simp only [List.mem_singleton] at h1
+          have hr := hft.2
+          have hlen := Nat.le_trans c.frame.1 hft.1.1
+          revert hr h1 hlen
+          rcases (fR r h t).1 with ⟨res, hh1⟩
+          intro h1 hr hlen
+          simp only at h1 hlen ⊢
+          subst h1
+          cases hrt : ref (envOf H env r) t with
+          | err e => rw [hrt] at hr; simp [ResRel] at hr
+          | imm v =>
+            rw [hrt] at hr; obtain ⟨h1', hn⟩ := hr
+            simp only at h1'; injection h1' with h1'; exact absurd h1'.symm (hn a)
+          | same v =>
+            rw [hrt] at hr; obtain ⟨h1', hin⟩ := hr
+            simp only at h1'; injection h1' with h1'; subst h1'
+            exact Nat.lt_of_lt_of_le (inb_ref.mp hin) hlen
+          | new o =>
+            rw [hrt] at hr; obtain ⟨a', h1', _, h3, _⟩ := hr
+            simp only at h1' h3; injection h1' with h1'; injection h1' with h1'; subst h1'
+            exact get_lt h3
+
+/-- the registry after a history: its tables are those of the registrations alone (evaluations
+    leave memo entries only), and its memo is consistent -/
+theorem evalEvents_reg {H : Hier} {env : Env}
+    {fR : Reg → Heap → Val → (Except Err Val × Heap) × Reg} {fP : Env → Heap → Val → Except Err Val × Heap}
+    (hb : Bridge H env fR fP) :
+    ∀ (events : List Event) (r : Reg) (h : Heap), CacheOK H r →
+      C13.EqC (evalEvents H fR events r h).2.2 (events.foldl (regAfter H) r) ∧
+      CacheOK H (evalEvents H fR events r h).2.2 := by
+  intro events
+  induction events with
+  | nil => intro r h hc; exact ⟨EqC.refl' r, hc⟩
+  | cons e es ih =>
+    intro r h hc
+    cases e with
+    | register c ex kw => exact ih _ h (register_cacheOK H r c ex kw)
+    | eval t =>
+      obtain ⟨_, b2, b3⟩ := hb r h t hc
+      have := ih (fR r h t).2 (fR r h t).1.2 b3
+      simp only [evalEvents, List.foldl_cons, regAfter]
+      have hq := foldl_regAfter_congr H es b2
+      exact ⟨⟨this.1.1.trans hq.1, this.1.2.1.trans hq.2.1, this.1.2.2.trans hq.2.2⟩, this.2⟩
+
+theorem showRef_envOf (H : Hier) (env : Env) (r : Reg) (h0 : Heap) (x : RefRes) :
+    showRef (envOf H env r) h0 x = showRef env h0 x := rfl
+
+/-- the expectation of the checker is the expectation of the history lemma -/
+theorem expectAll_eq (H : Hier) (env : Env) (h0 : Heap) (p : Prog) :
+    ∀ (es : List Event) (r : Reg),
+      expectAll H env h0 p es r = expectList H env h0 (fun e => refProg e h0 p) es r := by
+  intro es
+  induction es with
+  | nil => intro _; rfl
+  | cons e es ih =>
+    intro r
+    cases e with
+    | eval t => simp only [expectAll, expectList, ih, expectR, showRef_envOf]
+    | register c ex kw => simp only [expectAll, expectList, ih]
+
+/-- the R-level evaluator a program runs on each target of a history -/
+def progEvalR (H : Hier) (env : Env) (p : Prog) : Reg → Heap → Val → (Except Err Val × Heap) × Reg :=
+  match p with
+  | .fold sub i op => glomitR H env (mkFold sub i op)
+  | .sum sub i => glomitR H env (mkSum sub i)
+  | .count => glomitR H env mkCount
+  | .flatten sub i => glomitR H env (mkFlatten sub i)
+  | .merge sub i _ => glomitR H env ⟨.merge, sub, i, .iadd, false⟩      -- not used
+  | .flattenFn sub i l => flattenFnR H env sub i l
+  | .mergeFn sub i op => mergeFnR H env sub i op
+
+theorem progEvalR_bridge (H : Hier) (env : Env) (p : Prog) : Bridge H env (progEvalR H env p) (progEval p) := by
+  cases p with
+  | fold sub i op => exact glomitR_bridge H env _
+  | sum sub i => exact glomitR_bridge H env _
+  | count => exact glomitR_bridge H env _
+  | flatten sub i => exact glomitR_bridge H env _
+  | merge sub i op => exact glomitR_bridge H env _
+  | flattenFn sub i l => exact flattenFnR_bridge H env sub i l
+  | mergeFn sub i op => exact mergeFnR_bridge H env sub i op
+
+theorem runProgR_eq (H : Hier) (env : Env) (p : Prog) (hm : p.isMerge = false) (events : List Event)
+    (r : Reg) (h : Heap) : runProgR H env p events r h = evalEvents H (progEvalR H env p) events r h := by
+  cases p with
+  | merge sub i op => cases hm
+  | _ => rfl
+
+/-- the hypotheses of a history on the handler tables: whenever an evaluation happens and the
+    program iterates chain objects of its own making, those are iterated with `iter` -/
+def HistOK (H : Hier) (env : Env) (p : Prog) (events : List Event) (r : Reg) : Prop :=
+  GoodAlong H env (fun e => regLookup e.foldCatch "UnregisteredTarget" = some "FoldError" ∧
+    (p.usesChain = true → ChainOK e)) events r
+
+theorem histOK_of_bool {H : Hier} {env : Env} {p : Prog}
+    (hcatch : regLookup env.foldCatch "UnregisteredTarget" = some "FoldError")
+    (hconv : regLookup env.iterCatch "Exception" = some "TypeError") :
+    ∀ (events : List Event) (r : Reg), (p.usesChain = false ∨ chainIterAlong H env events r = true) →
+      HistOK H env p events r := by
+  intro events
+  induction events with
+  | nil => intro _ _; trivial
+  | cons e es ih =>
+    intro r hh
+    cases e with
+    | eval t =>
+      refine ⟨⟨hcatch, ?_⟩, ih r ?_⟩
+      · intro hu
+        rcases hh with hh | hh
+        · rw [hh] at hu; cases hu
+        · simp only [chainIterAlong, Bool.and_eq_true, chainIter, decide_eq_true_eq] at hh
+          exact ⟨hh.1, hconv⟩
+      · rcases hh with hh | hh
+        · exact Or.inl hh
+        · simp only [chainIterAlong, Bool.and_eq_true] at hh; exact Or.inr hh.2
+    | register c ex kw =>
+      apply ih
+      rcases hh with hh | hh
+      · exact Or.inl hh
+      · exact Or.inr hh
+
+/-- **the whole history against the registry**: nothing that existed changes, and an observer
+    sees, for every evaluation, the reference reduction over the iteration the registry's tables
+    name at that moment — whatever was looked up (and memoised) before -/
+theorem runProgR_spec (H : Hier) (env : Env) (hconv : WFConv env = true) (h0 : Heap) (hc : closedHeap h0 = true)
+    (p : Prog) (hp : ProgOK h0 p) (events : List Event)
+    (ht : ∀ t ∈ Event.targets events, Val.inb h0.length t = true)
+    (r : Reg) (hcr : CacheOK H r) (hh : HistOK H env p events r) :
+    Frame h0.length h0 (runProgR H env p events r h0).2.1 ∧
+      observeAll env h0.length (runProgR H env p events r h0).2.1 [] (runProgR H env p events r h0).1 =
+        expectAll H env h0 p events r := by
+  obtain ⟨hcatch, _, _⟩ := WFConv_parts hconv
+  have c0 := Ctx.base hc
+  rw [expectAll_eq]
+  by_cases hm : p.isMerge = false
+  · rw [runProgR_eq H env p hm]
+    have := evalEvents_spec hc H env (progEvalR_bridge H env p)
+      (good := fun e => regLookup e.foldCatch "UnregisteredTarget" = some "FoldError" ∧
+        (p.usesChain = true → ChainOK e))
+      (fun e he => progEval_ok hp hm e he.1 he.2) events ht r h0 hcr c0 hh
+    exact ⟨this.1, this.2 [] (by simp) _ (Frame.rfl' (Nat.le_refl _))⟩
+  · cases p with
+    | merge sub i op =>
+      have hs : ∀ k ∈ sub, Val.inb h0.length k = true := fun k hk => hp.inb k (by simp [progVals, hk])
+      have hi : InitOK h0 i := ⟨hp.allocates, hp.wf, fun v hv => hp.inb v (by simp [progVals, hv])⟩
+      have hmm := mkMerge_spec c0 sub i op hi
+      simp only [runProgR]
+      rcases hmk : mkMerge sub i op h0 with ⟨res, h1⟩
+      rw [hmk] at hmm
+      simp only at hmm
+      cases hro : refMergeOp h0 i op with
+      | error e =>
+        rw [hro] at hmm
+        simp only [hmm.2]
+        refine ⟨hmm.1, ?_⟩
+        rw [observeAll_errors]
+        have : ∀ (es : List Event) (r : Reg),
+            expectList H env h0 (fun e => refProg e h0 (Prog.merge sub i op)) es r =
+              (Event.targets es).map (fun _ => errR env e) := by
+          intro es
+          induction es with
+          | nil => intro _; rfl
+          | cons ev es ih =>
+            intro r
+            cases ev with
+            | eval t => simp [expectList, Event.targets, ih, refProg, refMerge, hro, showRef]
+            | register c ex kw => simp [expectList, Event.targets, ih]
+        rw [this]
+      | ok o =>
+        rw [hro] at hmm
+        simp only [hmm.2]
+        have c1 : Ctx h0 h1 := ⟨hc, hmm.1⟩
+        have := evalEvents_spec hc H env (glomitR_bridge H env ⟨.merge, sub, i, o, false⟩)
+          (ref := fun e => refSpec e h0 ⟨.merge, sub, i, o, false⟩)
+          (good := fun e => regLookup e.foldCatch "UnregisteredTarget" = some "FoldError" ∧
+            ((Prog.merge sub i op).usesChain = true → ChainOK e))
+          (fun e he => fun h t c ht' => glomit_spec c e he.1 ⟨.merge, sub, i, o, false⟩ hi hs ht')
+          events ht r h1 hcr c1 hh
+        have hexp : ∀ (es : List Event) (r : Reg),
+            expectList H env h0 (fun e => refProg e h0 (Prog.merge sub i op)) es r =
+              expectList H env h0 (fun e => refSpec e h0 ⟨.merge, sub, i, o, false⟩) es r := by
+          intro es
+          induction es with
+          | nil => intro _; rfl
+          | cons ev es ih =>
+            intro r
+            cases ev with
+            | eval t => simp [expectList, ih, refProg, refMerge, hro]
+            | register c ex kw => simp [expectList, ih]
+        rw [hexp]
+        exact ⟨hmm.1.trans hmm.1.1 this.1, this.2 [] (by simp) _ (Frame.rfl' (Nat.le_refl _))⟩
+    | _ => exact absurd rfl hm
 
 end Glom.C15
